@@ -33,7 +33,7 @@ CHECKS["C18"] = dict(cat="proof", tech=TECH,
    note=PROOF_NOTE + " Reflection counts and layer counts are bounded (B); chain continuity inside LayeredRayTracer.solutions and the split-medium equivalence are N.", ref="§5 C18")
 CHECKS["C02"] = dict(cat="proof", tech=TECH,
    text="Contracts stating that gradient-index paths and tracers read the geometry only through rho, phi and the two depths (dependence-set obligations with the horizontal coordinates withheld), rho/phi contracts with a ghost lemma for translations/rotations, reciprocity of the root problem and of the direct solution, and solution-count/exists clauses; discharged by z3 from the current source.",
-   note=PROOF_NOTE + " Root-search determinism (A6); attenuation reciprocity is N; the layered tracer's reciprocity is a bounded native stand-in over stacks of uniform layers (B) plus one fixed gradient-layer geometry that is known finding D14 (gradient-layer stacks otherwise N).", ref="§5 C02")
+   note=PROOF_NOTE + " Root-search determinism (A6); attenuation reciprocity is N; the layered tracer's reciprocity (numeric launch-angle scan, outside the executor's subset) is a bounded native stand-in (B) over stacks of uniform layers and firn over bulk ice, which found nothing after defect D14 was repaired (fix: 87459b4).", ref="§5 C02")
 CHECKS["C03"] = dict(cat="proof", tech=TECH,
    text="Contracts on Fresnel coefficients (magnitude <= 1, = 1 under total internal reflection), the attenuation factor exp(-|integral|) in (0,1] with integrand ds/L_att(z,|f|), and on the returned polarization vectors (unit, orthogonal, transverse) for all three path classes, with the vertical-emission defect carved out as a known finding; the propagate() harnesses (same grid delayed by tof, single filtering with force_real, per-component factor) and the horizontal-segment branch of the uniform-path attenuation; uniform-path attenuation over stepped segments and linearity/energy in the polarization vector are bounded native samplings (B).",
    note=PROOF_NOTE + " Known finding D10 (vertical emitted direction) is listed in known_findings.json.", ref="§5 C03")
